@@ -6,6 +6,7 @@ package c11
 
 import (
 	"context"
+	"fmt"
 
 	"mosn.io/pkg/variable"
 	"verif/harness/hx"
@@ -38,8 +39,17 @@ func Run(c *hx.Ctx) {
 			runLS(c, genLS(c))
 		}
 	}
+	if only == "one" { // debugging aid: one scenario given as proto stage phase idle bg drain hold
+		g := gsCase{proto: c.Args[2], phase: c.Args[4]}
+		fmt.Sscan(c.Args[3], &g.stage)
+		fmt.Sscan(c.Args[5], &g.idle)
+		fmt.Sscan(c.Args[6], &g.bg)
+		fmt.Sscan(c.Args[7], &g.drain)
+		fmt.Sscan(c.Args[8], &g.hold)
+		runGS(c, g)
+	}
 	if only == "" || only == "gs" {
-		for i := 0; i < c.N(40, 75); i++ {
+		for i := 0; i < c.N(45, 75); i++ {
 			runGS(c, genGS(c, i))
 		}
 	}
